@@ -289,6 +289,7 @@ type Opts struct {
 	MaxFields   int
 	AnonUnionContainers bool // []Union / map[string]Union fields (gounions refuses them)
 	EnumUnexported bool // enums with unexported members
+	UnexportedMembers bool // union members whose Go name is unexported
 	DashTags bool // some fields tagged json:"-"
 	NoTwinPkg bool // no second imported package named like the first
 	TagOptions bool // json tag options omitempty / string (C02 only: the generated types cannot express them)
@@ -388,6 +389,11 @@ func Random(id int, rng *rand.Rand, o Opts) *Prog {
 		add(Decl{K: "struct", Name: "Rect", Fields: []Field{{Name: "W", Type: Basic("int")}, {Name: "H", Type: Basic("int"), Tag: `json:"h"`}}, Methods: []Method{{Name: "isShape"}, {Name: "isThing"}}})
 		nb := Basic("int")
 		add(Decl{K: "named", Name: "Dot", Under: &nb, Methods: []Method{{Name: "isShape"}}})
+		if o.UnexportedMembers {
+			add(Decl{K: "struct", Name: "square", Fields: []Field{{Name: "Side", Type: Basic("int")}}, Methods: []Method{{Name: "isShape"}}})
+			ni := Slice(Basic("int"))
+			add(Decl{K: "named", Name: "sides", Under: &ni, Methods: []Method{{Name: "isThing"}}})
+		}
 		add(Decl{K: "iface", Name: "Thing", IMethods: []string{"isThing"}})
 		ns := Slice(Basic("string"))
 		add(Decl{K: "named", Name: "Words", Under: &ns, Methods: []Method{{Name: "isThing"}}})
